@@ -6,6 +6,7 @@ import time
 import vlib
 from vlib import log
 from props import qbft_common as Q
+from props import qbft_spectrace as ST
 
 PROP = "C06"
 
@@ -87,32 +88,50 @@ def run(tier, seed):
                                                         res["counters"].get("violations", 0), res["counters"].get("divergences", 0)))
     for v in res["violations"]:
         verdict.violation(v["signature"], "%s [%s step %d]" % (v["description"], v["behaviour"], v["step"]), inp)
+    # ---- the other direction: executions recorded from the real instance / controller (the scenarios of the
+    # reference test kit that the repository's own spectest runs + seeded random executions), validated by TLC
+    # against spec/QBFTInstanceTrace.tla and compared with the reference implementation call by call ----
+    part = ST.run_part(tier, seed, verdict, log)
+    transitions += part["tlc_states"]
     rc = verdict.report()
     acts = {k2[4:]: v for k2, v in res["counters"].items() if k2.startswith("act:")}
     cov = {
         "states": states, "transitions": transitions,
-        "traces_validated_against_impl": res["behaviours"],
+        "traces_validated_against_impl": res["behaviours"] + part["traces_accepted"],
         "samples": res["samples"][:1],
-        "evaluations": res["steps"],
+        "evaluations": res["steps"] + part["events"],
         "distinct_nontrivial": res["nontrivial"],
         "rule": "behaviours = TLC -simulate runs of the single-instance model in 6 families (all message classes, "
                 "round-change heavy with the instance leading round 2, committee 7, field mutants) "
                 + ("+ one test per node of the dumped state graph of a small config " if thorough else "")
-                + "; non-trivial = at least one message processed by all three implementations",
+                + "; non-trivial = at least one message processed by all three implementations. Other direction: "
+                "every message-processing / timeout / controller scenario of the pinned reference test kit and seeded "
+                "random executions, recorded from the real instance / controller, validated by TLC against "
+                "QBFTInstanceTrace.tla (detail.spectest_traces)",
         "exhaustive": all(c["exhaustive"] for c in configs),
         "detail": {"configs": configs, "actions_replayed": acts, "cover_graph": cover,
-                   "divergences": res["counters"].get("divergences", 0), "divergence_samples": res["divergences"][:5]},
+                   "divergences": res["counters"].get("divergences", 0) + len(part["model_imprecisions"]),
+                   "divergence_samples": res["divergences"][:5], "spectest_traces": part},
     }
     vlib.write_evidence(PROP, tier, seed, "model_checking", cov, time.time() - t0, [
         "the oracle is the pinned reference implementation (ssv-spec v0.3.7 qbft.Instance) with identical keys and "
         "byte-identical inputs; the TLA+ model generates the inputs and predicts accept/reject",
         "committees 4 and 7; rounds <= 5; BLS signing is deterministic",
+        "trace direction: facts about recorded messages (signature / structure / height / root-data match, per element "
+        "of a justification) are computed with the reference library's exported predicates; the environment of the "
+        "recorded executions holds every key (Weaken = noSigCheck reading of Forgeable, signatures are logged facts)",
     ], len(verdict.violations))
     return rc
 
 
 def replay(path):
     verdict = vlib.Verdict(PROP)
+    with open(path) as f:
+        first = f.readline()
+    if '"event":"Reset"' in first.replace(" ", ""):
+        # a recorded trace (NDJSON events): validate it again, record the scenario again from the current tree
+        ST.replay(path, verdict, log)
+        return verdict.report()
     binq = vlib.go_build("qbftdiff")
     outp = os.path.join(vlib.WORK, PROP, "replay_single.json")
     os.makedirs(os.path.dirname(outp), exist_ok=True)
